@@ -217,7 +217,24 @@ def build_threshold_invariant(run, prop, E):
     par_cases(run, E, cases, one)
     # established by the constructor
     ini = raw(ft.FakeTRX, "__init__")
-    run.add(Obligation(prop, qualname(ini), "thresholds_initially_zero", [], z3.BoolVal(True), kind="inv", where=where(ini), tag={"side": "py", "what": "thr_init"}))
+    register_fn(run, ini)
+    tr = toolkit("transceiver")
+    E.summaries = {"transceiver.Transceiver.__init__": lambda E, func, args, kwargs: None}     # its own contract: C12 (initial_state_idle_untuned, link ports)
+    npaths = 0
+    for p, ctx, out in run_paths(E, lambda E: {"self": SObj(ft.FakeTRX, {})}, lambda E, ctx: E.call(ini, [ctx["self"], "0.0.0.0", "127.0.0.1", 5700])):
+        tag = {"side": "py", "what": "thr_init"}
+        npaths += 1
+        if out[0] == "raise":
+            run.add(Obligation(prop, qualname(ini), "never_raises", p.pc, z3.BoolVal(False), kind="noexc", note=exc_note(out[1]), case=out[1].cls.__name__, where=where(ini), tag=tag))
+            continue
+        a = ctx["self"].attrs
+        names = ("toa256_rand_threshold", "rssi_rand_threshold", "ci_rand_threshold")
+        goal = z3.And([Z(a[n]) >= 0 for n in names]) if all(n in a for n in names) else z3.BoolVal(False)
+        run.add(Obligation(prop, qualname(ini), "thresholds_initially_non_negative", p.pc, goal, kind="inv", where=where(ini), tag=tag))
+        goal = (z3.And(Z(a["burst_drop_amount"]) >= 0, Z(a["burst_drop_period"]) >= 1) if "burst_drop_amount" in a and "burst_drop_period" in a else z3.BoolVal(False))
+        run.add(Obligation(prop, qualname(ini), "drop_counters_initially_inside_the_class_invariant", p.pc, goal, kind="inv", where=where(ini), tag=tag))
+    if npaths == 0:
+        run.add(Obligation(prop, qualname(ini), "constructor_paths_exist", [], z3.BoolVal(False), kind="cover", where=where(ini)))
     E.summaries = {}
 
 
@@ -392,6 +409,16 @@ def replay_py(payload):
     if f.get("side") == "parse":
         from props import C01
         return C01.replay(payload)
+    if what == "thr_init":
+        t = native_trx()
+        got = {n: getattr(t, n, None) for n in ("toa256_rand_threshold", "rssi_rand_threshold", "ci_rand_threshold", "burst_drop_amount", "burst_drop_period")}
+        ok = all(isinstance(v, int) for v in got.values()) and all(got[n] >= 0 for n in got) and got["burst_drop_period"] >= 1
+        if ok:
+            try:
+                (t.toa256, t.rssi, t.ci)
+            except Exception as e:
+                ok, got = False, dict(got, getters="raise %s: %s" % (type(e).__name__, e))
+        return {"confirmed": not ok, "observed": got, "expected": "thresholds >= 0, drop amount >= 0, drop period >= 1 on a fresh transceiver"}
     if what == "handle_rx_bad":
         t = native_trx()
         t.pwr_meas = type("PM", (), {"measure": lambda s, fr: -77})()
